@@ -1157,7 +1157,11 @@ class PDFCIDFont(PDFFont):
             # writing mode: vertical
             widths2 = get_widths2(list_value(spec.get("W2", [])))
             self.disps = {cid: (vx, vy) for (cid, (_, (vx, vy))) in widths2.items()}
-            (vy, w) = resolve1(spec.get("DW2", [880, -1000]))
+            dw2 = [resolve1(v) for v in list_value(spec.get("DW2", [880, -1000]))]
+            if len(dw2) != 2 or not all(isinstance(v, (int, float)) for v in dw2):
+                log.warning("Invalid /DW2 in CID font, using the default: %r", dw2)
+                dw2 = [880, -1000]
+            (vy, w) = dw2
             self.default_disp = (None, vy)
             widths: Dict[Union[str, int], float] = {
                 cid: w for (cid, (w, _)) in widths2.items()
@@ -1168,7 +1172,10 @@ class PDFCIDFont(PDFFont):
             self.disps = {}
             self.default_disp = 0
             widths = get_widths(list_value(spec.get("W", [])))
-            default_width = spec.get("DW", 1000)
+            default_width = resolve1(spec.get("DW", 1000))
+            if not isinstance(default_width, (int, float)):
+                log.warning("Invalid /DW in CID font, using the default")
+                default_width = 1000
         PDFFont.__init__(self, descriptor, widths, default_width=default_width)
 
     def _cidsysteminfo_str(self, key: str) -> str:
